@@ -55,6 +55,7 @@ class _Ctx:
         self.update_calls = 0
         self.update_cap = None
         self.cand_calls = 0
+        self.overlap_seen = 0
         self.attempt_grows = 0
         self.attempt_fail_after = None
         self.added = set()
@@ -193,7 +194,9 @@ def _install(ctx):
         if t:
             ctx.fault("candidate_forced_reject")
             return True
-        return real_overlap(self, point, node, nrexcl)
+        res = real_overlap(self, point, node, nrexcl)
+        _shadow_overlap(ctx, self, np.asarray(point, dtype=float), node, nrexcl, res)
+        return res
 
     patch(rw.RandomWalk, "_is_overlap", _is_overlap)
 
@@ -625,6 +628,32 @@ def _shadow_point(ctx, m, n):
             ctx.fail("C16", "point", f"({m},{n}) removed but engine still reports {got.tolist()}")
     elif not np.array_equal(got, exp):
         ctx.fail("C16", "point", f"({m},{n}) engine reports {got.tolist()} model {exp.tolist()}")
+
+
+def _shadow_overlap(ctx, proc, point, node, nrexcl, verdict):
+    """C16 shadow in world A: the engine's overlap verdict for a candidate equals the reference model's
+    (force norm > max force, or a non-excluded residue within 0.1 nm), checked on a sample of the candidates."""
+    ctx.overlap_seen += 1
+    if nrexcl != 1 or ctx.overlap_seen % 7:
+        return
+    m = proc.mol_idx
+    kind, vec, info = ctx.model.force(point, m, node, ctx.nrexcl_nb.get((m, node), [node]))
+    if kind == "dontcare":
+        return
+    fmax = proc.max_force
+    if kind == "inf":
+        expect = True
+    else:
+        nrm = float(np.linalg.norm(vec))
+        if abs(nrm - fmax) <= 1e-6 * max(1.0, fmax):
+            return
+        expect = nrm > fmax
+    ctx.probe("overlap_verdict_shadowed")
+    if bool(verdict) != expect:
+        ctx.fail("C16", "force", f"candidate for ({m},{node}) at {np.round(point, 6).tolist()}: engine says "
+                                 f"{'overlap' if verdict else 'no overlap'}, reference model force "
+                                 f"{'inf' if kind == 'inf' else np.linalg.norm(vec)} vs limit {fmax} ({info['pairs']} pairs)",
+                 pair_across_boundary=bool(info["across"]))
 
 
 def _shadow_all(ctx):
